@@ -742,7 +742,7 @@ func main() {
 	exploreWall := time.Since(tRun)
 
 	// ---- determinism self check on a sample ----
-	nondet := 0
+	nondet, sweepDev := 0, 0
 	if len(detCheck) > 0 {
 		w := startWorker(bin)
 		for _, r := range detCheck {
@@ -752,8 +752,21 @@ func main() {
 				continue
 			}
 			if r2.TraceHash != r.TraceHash {
-				nondet++
-				harnessMsgs = append(harnessMsgs, fmt.Sprintf("NONDETERMINISM scenario=%s seed=%d trace %s vs %s", r.Scenario, r.Seed, r.TraceHash, r2.TraceHash))
+				// what replay relies on is that executions of a seed in fresh processes agree.
+				// Execute it once more in a brand-new worker: if the two isolated executions
+				// agree, the run inside the sweep deviated because of something an earlier run
+				// left behind in its worker process (counted and printed, see DESIGN 12.8);
+				// if they disagree the seed does not determine the run: harness failure.
+				w3 := startWorker(bin)
+				r3 := w3.run(Job{Scenario: r.Scenario, Seed: r.Seed}, 300*time.Second)
+				w3.stop()
+				if !r3.crashed && r3.TraceHash == r2.TraceHash {
+					sweepDev++
+					fmt.Printf("warning: scenario=%s seed=%d: trace inside the sweep %s, in two fresh processes %s (carry-over inside a worker process)\n", r.Scenario, r.Seed, r.TraceHash, r2.TraceHash)
+				} else {
+					nondet++
+					harnessMsgs = append(harnessMsgs, fmt.Sprintf("NONDETERMINISM scenario=%s seed=%d trace %s vs %s vs %s", r.Scenario, r.Seed, r.TraceHash, r2.TraceHash, r3.TraceHash))
+				}
 			}
 		}
 		w.stop()
@@ -859,6 +872,7 @@ func main() {
 		"runs_per_hour":                float64(total) / exploreWall.Hours(),
 		"runs_per_scenario":            perScen,
 		"nontrivial_runs_per_scenario": ntPerScen,
+		"in_sweep_trace_deviations":    sweepDev,
 		"faults_fired":                 faults,
 		"probes":                       probes,
 		"real_components":              cfg.Real,
